@@ -9,19 +9,19 @@ PY = "/venv/bin/python"
 # property -> (technique, level text, level note, design ref)
 CLAIMED = {
  "C01": ("custom AST/CFG/def-use checker: who-may-write, pairing, boxed-store and order-idiom audit of every coords/payloads mutation",
-         "Rule conformance over every enumerated write site of Fiber.coords/Fiber.payloads: an inductive-invariant case split re-derived from the current source; each case discharged by an accepted idiom. Decides the structural clauses (pairing, boxing, sorted insertion / monotone append / guarded replace / re-sort, reject-before-write) for all inputs at once; does not decide leaf-depth uniformity or partition order inside splitters.",
+         "Rule conformance over every enumerated write site of Fiber.coords/Fiber.payloads: an inductive-invariant case split re-derived from the current source; each case discharged by an accepted idiom. Decides the structural clauses (pairing, boxing, sorted insertion / monotone append / guarded replace / re-sort, reject-before-write) for all inputs at once; a caller that inserts at a carried relative-bisect position must take the position back when it deletes; does not decide leaf-depth uniformity or partition order inside splitters.",
          "Trusts: Python semantics of list operations and bisect; asserts execute (no python -O); updateCoords callbacks injective; typing tables of sa/types.py (validated against the source on every run).",
          "DESIGN.md section 3, C01"),
  "C02": ("custom ownership/registration checker: who-may-write Rank.fibers, registration<->insertion flow (CFG reachability), removal<->deregistration pairing, setOwner site classification, rebuild completeness",
-         "Rule conformance over every enumerated write of Rank.fibers, every caller of Rank.append/pop/clearFibers, every _createDefault/_instantiateDefault call site, every payload-dropping write in the mutators C02 quantifies over, and every setOwner call site. Decides that each edge creation on an owned fiber is matched by a registration (and vice versa) on every CFG path; does not decide that pop() removes the right fiber at run time (asserted in the code).",
+         "Rule conformance over every enumerated write of Rank.fibers, every caller of Rank.append/pop/clearFibers, every _createDefault/_instantiateDefault call site, every payload-dropping write in the mutators C02 quantifies over, and every setOwner call site. Decides that each edge creation on an owned fiber is matched by a registration (and vice versa) on every CFG path; a sub-fiber dropped with a single pop() is known childless (len == 0) on every disjunct of the drop condition; does not decide that pop() removes the right fiber at run time (asserted in the code).",
          "Trusts: statement-level CFG (exceptions only from raise/assert/try bodies); structural guards; the frozen caller tables in sa/rules/c02.py; correlated branches on never-assigned flags take the same direction.",
          "DESIGN.md section 3, C02"),
  "C10": ("interprocedural write-effect, alias and holds analysis (summaries to a fix-point over the resolved call graph, lazy-iterator edges, flag constant propagation)",
-         "Effect/escape analysis: for each of ~90 observers the transitive tree/rank write effect on parameter-rooted objects must be empty; for each of 30 value-returning operations every write must hit fresh/deep-copied objects, the result must be fresh and hold nothing rooted at an operand; copy hooks and default hand-out checked structurally. Sound for all inputs up to the stated typing over-approximation (unresolved receivers are reported as ANALYSIS-ERROR when they decide a verdict).",
+         "Effect/escape analysis: for each of ~90 observers the transitive tree/rank write effect on parameter-rooted objects must be empty; for each of 30 value-returning operations every write must hit fresh/deep-copied objects, the result must be fresh and hold nothing rooted at an operand; copy hooks and default hand-out checked structurally; elements of getter results that alias stored objects (rank-id lists) are not edited in place without a deep copy. Sound for all inputs up to the stated typing over-approximation (unresolved receivers are reported as ANALYSIS-ERROR when they decide a verdict).",
          "Trusts: receiver typing tables (validated each run), opaque user callbacks excluded, pickle round trip is a deep copy, flow-insensitive field abstraction ('sub' roots tagged by first-level field).",
          "DESIGN.md section 3, C10"),
  "C03": ("effect summaries (reads are effect-free), alias summaries (reference is an element of the payload list), CFG exit analysis (in-place operators return self)",
-         "Structural clauses of point access: read accessors have an empty tree/rank write effect transitively; getPayloadRef/_create_payload return the stored element, never a copy or an un-inserted default; tensor wrappers delegate unchanged and return the rank-0 box itself; every __i*__ method returns self on every normal path. Does not decide last-write-wins over histories, prefix reads or start_pos equivalence (runtime values).",
+         "Structural clauses of point access: read accessors have an empty tree/rank write effect transitively; getPayloadRef/_create_payload return the stored element, never a copy or an un-inserted default; tensor wrappers delegate unchanged and return the rank-0 box itself; every __i*__ method returns self on every normal path; presence of a coordinate in getPayload/getPayloadRef is decided from the coordinate search alone (def-use + control dependence never reach the payload list); every path of Fiber.__ilshift__ to a return passes the clear step and the copy loop. Does not decide last-write-wins over histories, prefix reads or start_pos equivalence (runtime values).",
          "Trusts: the effect engine's typing tables; Fiber._saved_* statistics are not tree state.",
          "DESIGN.md section 3, C03"),
  "C11": ("operator-slot conformance tables checked by def-use over the AST; dunder-name exhaustiveness; sibling cross-check Payload vs CoordPayload; Fiber arithmetic forms matched to their co-iteration",
@@ -29,15 +29,15 @@ CLAIMED = {
          "Trusts: Python's operator dispatch rules; int/float arithmetic of the boxed values.",
          "DESIGN.md section 3, C11"),
  "C04": ("schema-instance recogniser: each merge loop is matched against the proven two-finger schema with the operator's truth table (branches, advance sets, emission table, emitted slots/mask, tails) + effect summary for operand purity",
-         "The two-finger schema M(op) is proven correct on paper (loop invariant in sa/rules/c04.py); the check decides, from the current source, that each of &, |, ^, - is an instance of M(op): three-way split on the two heads, per-branch advance discipline (incl. the arity-dependent succ_next table), emission exactly where the truth table says, present side's own payload / fresh unregistered default of the absent side / correct mask, tails draining the right side, operands not written. Holds for all operand pairs. Not decided: tuple un-nesting of n-ary forms, leader-follower lookups, ANY-padded prefix matching.",
+         "The two-finger schema M(op) is proven correct on paper (loop invariant in sa/rules/c04.py); the check decides, from the current source, that each of &, |, ^, - is an instance of M(op): three-way split on the two heads, per-branch advance discipline (incl. the arity-dependent succ_next table), emission exactly where the truth table says, present side's own payload / fresh unregistered default of the absent side / correct mask, tails draining the right side, operands not written; the ANY-padded projection of the shorter-arity operand has, symbolically, exactly the longer operand's arity. Holds for all operand pairs. Not decided: tuple un-nesting of n-ary forms, leader-follower lookups.",
          "Trusts: operand streams strictly increasing (C01 + asserted precondition); default iteration delivers non-empty elements (C12.R1).",
          "DESIGN.md section 3, C04"),
  "C05": ("syntax-directed path check of the populate generator (one yield per iteration, def-use of the offered reference, removal pairing, counter bookkeeping) + effect summary for source purity",
-         "Structural clauses of z << a: the loop iterates the source's default iteration and yields exactly once per element the source's own coordinate with (reference into z, source payload); the reference is the payload found by getPayload(allocate=False) or inserted by _create_payload before the yield; the only other destination writes are the paired deletions at bisect_left of the same coordinate under an emptiness test of the offered payload, with rank pop and counter bookkeeping; the source is never written; active ranges / rank id follow the definition. Not decided: final content for arbitrary loop bodies, nested composition.",
+         "Structural clauses of z << a: the loop iterates the source's default iteration and yields exactly once per element the source's own coordinate with (reference into z, source payload); the reference is the payload found by getPayload(allocate=False) or inserted by _create_payload before the yield; the only other destination writes are the paired deletions at bisect_left of the same coordinate under a removal condition that, in disjunctive normal form, is exactly {still-empty sub-fiber} or {leaf equal to the default, with no further condition}, with rank pop and counter bookkeeping; the source is never written; active ranges / rank id follow the definition. Not decided: final content for arbitrary loop bodies, nested composition.",
          "Trusts: C01/C02 idioms (cross-checked there); the run-time assert on the popped fiber.",
          "DESIGN.md section 3, C05"),
  "C07": ("delegation-table check over resolved calls, effect summaries (non-Ref traversals are insert-free), dispatch-table lifting, path-predicate normalisation of the yield in iterRange, fromIterator argument classification",
-         "Structural clauses: the 18 traversal wrappers delegate with exactly the range arguments their definition names; non-Ref traversals have no tree/rank write effect and Ref traversals fetch each visited coordinate with getPayloadRef; format dispatch table {C,U}; iterRange's yield is guarded by coord >= start, coord < end and non-emptiness w.r.t. the fiber's default and stops at coord >= end; dense traversals iterate range(start,end,step); every lazy fiber is built from an iterator class re-instantiated per traversal. Not decided: project/prune, interval arithmetic, saved-position equivalence, eager/lazy materialisation equality.",
+         "Structural clauses: the 18 traversal wrappers delegate with exactly the range arguments their definition names; non-Ref traversals have no tree/rank write effect and Ref traversals fetch each visited coordinate with getPayloadRef; format dispatch table {C,U}; iterRange's yield is guarded by coord >= start, coord < end and non-emptiness w.r.t. the fiber's default and stops at coord >= end, and the bounds tested are the caller's (start/end never rebound); dense traversals iterate range(start,end,step); every lazy fiber is built from an iterator class re-instantiated per traversal. Not decided: project/prune, interval arithmetic, saved-position equivalence, eager/lazy materialisation equality.",
          "Trusts: effect-engine typing tables; comparison normalisation in sa/pat.py.",
          "DESIGN.md section 3, C07"),
  "C12": ("one-predicate audit of every emptiness decision, recursion-shape checks, producer/consumer agreement of union mask literals, CFG exit classification of __eq__, effect summaries",
@@ -45,31 +45,31 @@ CLAIMED = {
          "Trusts: C04 (the union really delivers those masks).",
          "DESIGN.md section 3, C12"),
  "C08": ("funnel / delegation checks over resolved calls, copy-dominates-transformation on the CFG, index-domain recogniser (position vs ordinal), pass-through checks of the partition builders",
-         "Plumbing every split shares: the four splits and / // go through _splitGeneric after the rankid override; the splitter runs on copy.deepcopy(self); the depth descent stores at true positions; payload objects and coordinate lists pass through the partition builders unchanged (relative coordinates only subtract the partition start); _splitFiber builds lower fibers from the splitter's lists with the split fiber's default and shape. The partition / halo / active-range arithmetic is NOT decided (integer reasoning over run-time coordinates).",
+         "Plumbing every split shares: the four splits and / // go through _splitGeneric after the rankid override; the splitter runs on copy.deepcopy(self); the depth descent stores at true positions; payload objects and coordinate lists pass through the partition builders unchanged (relative coordinates only subtract the partition start); _splitFiber builds lower fibers from the splitter's lists with the split fiber's default and shape; the position-space splits count their boundaries over the same (empties-skipping) stream kind the partitioner distributes. The partition / halo / active-range arithmetic is NOT decided (integer reasoning over run-time coordinates).",
          "Trusts: the arithmetic inside _SplitterUniform/_splitNonUniform_iter (undecided).",
          "DESIGN.md section 3, C08"),
  "C09": ("repo-wide at-most-once-loop rule with sentinel, index-domain recogniser, dispatch-table lifting and key-set comparison across four chains, raw-iteration recogniser on the swizzle DFS",
-         "Structural clauses: no loop of fibertree/ leaves on every path through its body (descent loops visit every child); every loop-indexed element store addresses a true position; the five coordinate styles are handled by all four dispatch chains with equal key sets; swizzleRanks extracts with a raw DFS, permutes through guide and rebuilds ascending through Fiber.append; swapRanks = flatten(pair)/sort reversed/unflatten; every transform returns Tensor.fromFiber(...). Coordinate images, inverse round trips and merge reductions are NOT decided.",
+         "Structural clauses: no loop of fibertree/ leaves on every path through its body (descent loops visit every child); every loop-indexed element store addresses a true position; the five coordinate styles are handled by all four dispatch chains with equal key sets; swizzleRanks extracts with a raw DFS, permutes through guide and rebuilds ascending through Fiber.append; the rebuild opens a new sub-fiber depending on the whole coordinate prefix (carried flag reset per point, or slice comparison); swapRanks = flatten(pair)/sort reversed/unflatten; _mergeRanksHelper's children list zipped with self.coords has exactly one entry per stored payload; every transform returns Tensor.fromFiber(...). Coordinate images, inverse round trips and merge reductions are NOT decided.",
          "Trusts: sort/bisect semantics; pure merge_fn/trans_fn.",
          "DESIGN.md section 3, C09"),
  "C14": ("sibling cross-check of hand-copied carry-over blocks against one requirement table (CFG must-pass-through per attribute, def-use provenance of the shape argument), table check of every lazy-result builder, owner-first dominance in attribute queries",
-         "Every tensor transform (6 producers) must hand name, colour, mutability, leaf default, per-rank formats and an authoritative-derived shape to its result on every path to the return; every lazy-result builder (10 fromIterator producers) must carry the rank id / active range / default the operation defines; Fiber attribute queries ask the owner first; Rank.getShape(authoritative=True) yields None for estimated shapes. Coordinates inside shape / active range (values) are NOT decided.",
+         "Every tensor transform (6 producers) must hand name, colour, mutability, leaf default, per-rank formats and an authoritative-derived shape to its result on every path to the return; every lazy-result builder (10 fromIterator producers) must carry the rank id / active range / default the operation defines; Fiber attribute queries ask the owner first; Rank.getShape(authoritative=True) yields None for estimated shapes; the active range swizzleRanks re-computes is min/max over candidate ranges whose filter proves start <= first and end > last stored coordinate; the pair-style shape is folded by prepending over the reversed prefix. Coordinates inside shape / active range elsewhere (values) are NOT decided.",
          "Trusts: the requirement table written from the property text (sa/rules/c14.py).",
          "DESIGN.md section 3, C14"),
  "C15": ("intraprocedural taint analysis with metrics-only-parameter summaries (non-interference), dominating-guard check of asserting Metrics calls, counter-placement table, mutated-vs-reset attribute set comparison, tick pairing in the generators, effect summaries for confinement",
-         "Termination-insensitive non-interference of metrics code with kernel results: values derived from Metrics.* never reach yields/returns/tree writes/kernel control flow in any function of core/; every asserting Metrics call is dominated by a collecting guard; payload operators count exactly the table; beginCollect resets every attribute any Metrics method mutates; metrics.py is confined to Metrics.* and files; one incIter per yield in the ticking generators. Sufficient for 'results with collection on = off' for all kernels; equality of the reported numbers with an executed kernel is NOT decided.",
+         "Termination-insensitive non-interference of metrics code with kernel results: values derived from Metrics.* never reach yields/returns/tree writes/kernel control flow in any function of core/; every asserting Metrics call is dominated by a collecting guard; payload operators count exactly the table; beginCollect resets every attribute any Metrics method mutates; metrics.py is confined to Metrics.* and files; one incIter and one iter-trace row per yield in the ticking generators. Sufficient for 'results with collection on = off' for all kernels; equality of the reported numbers with an executed kernel is NOT decided.",
          "Trusts: Fiber._saved_* statistics do not influence results; asserts of the metrics API may abort a collecting run.",
          "DESIGN.md section 3, C15"),
  "C16": ("symbolic list-length normal form (header vs row arity), flush-discipline clause checks on the CFG, index-domain recogniser (position / relative position / ordinal of a default-skipping stream / destination-side) at every Metrics.addUse call site",
-         "Structural clauses: header and every row have length 2*(depth+1)+1 with the depth taken from the same two-way choice; flush discipline (append mode, fresh buffer after each flush, identical row to file and memory buffers, flush at num_cached_uses, final flush before the traces are dropped) -- which makes the file content independent of the threshold by construction; the position argument of each of the 24 addUse call sites is classified, ordinals of default-skipping streams are reported (8 known findings on the pinned tree). Row order and stamp monotonicity are NOT decided.",
+         "Structural clauses: header and every row have length 2*(depth+1)+1 with the depth taken from the same two-way choice; flush discipline (append mode, fresh buffer after each flush, identical row to file and memory buffers, flush at num_cached_uses, final flush before the traces are dropped) -- which makes the file content independent of the threshold by construction; the position argument of each of the 24 addUse call sites is classified, ordinals of default-skipping streams (incl. filtering comprehensions) are reported (16 known call sites in 6 functions on the pinned tree); every ticking generator refreshes the current point for the coordinate it yields, directly or through an accessor that records whenever collecting, on every path to the yield. Row order and stamp monotonicity are NOT decided.",
          "Trusts: the iteration-kind recogniser (sa/sites.py).",
          "DESIGN.md section 3, C16"),
  "C13": ("writer/reader key-set agreement by literal extraction, def-use check that the caller's default reaches every squeeze test and constructor, entropy-source audit with seed-dominates-draw on the CFG",
-         "THIN: round-trip equality is NOT decided. Decided are three necessary structural preconditions: YAML/dict writer and reader key sets agree (root written as [root], read with [0]); zero-squeezing compares with the caller's default at every level and forwards it to every Fiber/Tensor built; random construction draws only from the seeded random stream, seeding precedes every draw, recursion does not re-seed.",
+         "THIN: round-trip equality is NOT decided. Decided are three necessary structural preconditions: YAML/dict writer and reader key sets agree (root written as [root], read with [0]); zero-squeezing compares with the caller's default at every level and forwards it to every Fiber/Tensor built; random construction draws only from the seeded random stream, seeding precedes every draw, recursion does not re-seed; _makeFiber returns a fiber only for a provably non-empty coordinate list (no explicit empty sub-fibers from all-default blocks).",
          "Trusts: yaml dump/load round-trips plain dict/list/scalars.",
          "DESIGN.md section 3, C13"),
  "C17": ("resource pairing on the CFG (temp files removed / readers closed on every path), callback-slot arity agreement between two policies and the call sites, stale-loop-variable rule via reaching definitions, two-finger recogniser on the trace combiners",
-         "THIN: traffic values, the buffet window rule and cache optimality are NOT decided. Decided: every temp file created by _bufferTraffic is removed (and its reader closed first) on every path to a return; the six policy callbacks of both policies match the call sites in parameter count and returned tuple arity and are passed in slot order; in every loop over the bindings tensor/rank/type are bound from the current binding inside that loop; _combineTraces is a stable merge with ties to the read trace and filterTrace the two-pointer scan.",
+         "THIN: traffic values and cache optimality are NOT decided. Decided: the buffet keeps a line exactly when the iteration-stamp prefix up to and including the evict-on rank (slice from 0, length index+1, 0 for root; linear normal form) equals that of the next use and a next use exists; the cache's 'there is room' shortcut is the negation of add_elem's eviction-loop condition; every temp file created by _bufferTraffic is removed (and its reader closed first) on every path to a return; the six policy callbacks of both policies match the call sites in parameter count and returned tuple arity and are passed in slot order; in every loop over the bindings no variable is read whose value can only come from another, finished loop; _combineTraces is a stable merge with ties to the read trace and filterTrace the two-pointer scan.",
          "Trusts: nothing about the numbers.",
          "DESIGN.md section 3, C17"),
  "C18": ("literal extraction of the spec default table, polynomial (sum-of-products) normal form of the footprint expressions, aggregation-shape checks, effect summaries",
@@ -81,7 +81,7 @@ CLAIMED = {
          "Trusts: nothing about the numbers.",
          "DESIGN.md section 3, C19"),
  "C20": ("sibling cross-check of the encodeFiber implementations registered for U/C/B, registry/interface exhaustiveness against the base class placeholders, shared key constructor",
-         "THIN: decode round trips, lookups and sizes are NOT decided. Decided: every encodeFiber of U, C, B (and Codec.encode) forwards the imposed shape to the next rank; the registry maps U, C, B to classes overriding the placeholder methods the slice API calls; producers and the output dictionary share Codec.get_keys.",
+         "THIN: decode round trips and lookups are NOT decided. Decided: encodeFiber of C and B returns a per-element counter (the occupancy the rank above accumulates into segment ends); getSize of U/C/B sums exactly the word counts of the layout (ceiling-division idiom for mask words); every encodeFiber of U, C, B (and Codec.encode) forwards the imposed shape to the next rank; the registry maps U, C, B to classes overriding the placeholder methods the slice API calls; producers and the output dictionary share Codec.get_keys.",
          "Trusts: nothing about the encoded arrays.",
          "DESIGN.md section 3, C20"),
 }
@@ -129,7 +129,7 @@ def main():
         "engines": [{
             "name": "sa", "path": "/verif/sa",
             "serves_properties": [c["property_id"] for c in checks],
-            "kind_free_text": "repository-specific static analyser over the Python ast: program model with method injection, statement CFG + dominators, reaching definitions, receiver typing and call resolution, interprocedural write-effect / alias / holds summaries with flag constant propagation, per-property rule modules (sa/rules)",
+            "kind_free_text": "repository-specific static analyser over the Python ast: syntactic canonical form + role anchors, program model with method injection, statement CFG + dominators, reaching definitions, receiver typing and call resolution, interprocedural write-effect / alias / holds summaries with flag constant propagation, per-property rule modules (sa/rules)",
         }],
         "checks": checks,
         "not_applicable": na,
